@@ -646,4 +646,54 @@ theorem heaviside_counterexample :
       = some 1 := by
   constructor <;> decide +kernel
 
+/-! ### in-place / `out=` results with a coefficient -/
+
+/-- **out= fix-up, what holds.**  When the fix-up terminates the buffer has been multiplied by
+    exactly the coefficient; it terminates iff the coefficient is 1 or the out array's *old* unit,
+    multiplied by a bare number, needs no coefficient itself — the guard that
+    `out_fixup_counterexample` shows cannot be dropped. -/
+theorem out_fixup_partial (pre : Prefixes K) (t : Lut K) (old : UnitV K) (mul : K) :
+    (∀ f, outFixup pre t old mul = .ok (some f) → f = mul) ∧
+    (outFixup pre t old mul = .ok none ↔
+      mul ≠ 1 ∧ ∃ m' u', multiplyUnits pre t old UnitV.dimensionless = .ok (m', u') ∧ m' ≠ 1) := by
+  constructor
+  · intro f h
+    simp only [outFixup] at h
+    split at h
+    · rename_i h1; cases h; exact (eq_of_beq h1).symm
+    · split at h
+      · contradiction
+      · split at h
+        · cases h; rfl
+        · cases h
+  · constructor
+    · intro h
+      simp only [outFixup] at h
+      split at h
+      · cases h
+      · rename_i h1
+        split at h
+        · contradiction
+        · rename_i m' u' hm
+          split at h
+          · cases h
+          · rename_i h2
+            exact ⟨by simpa using h1, m', u', hm, by simpa using h2⟩
+    · rintro ⟨h1, m', u', hm, h2⟩
+      have e1 : (mul == 1) = false := by simpa using h1
+      have e2 : (m' == 1) = false := by simpa using h2
+      simp [outFixup, e1, hm, e2]
+
+/-- the full statement: an in-place result is the out-of-place result -/
+def C04_inplace_full : Prop :=
+  ∀ (old : UnitV Rat) (mul : Rat), outFixupTerminates (outFixup [] kmLut old mul) = some true
+
+/-- `x = unyt_array([1., 2.], 'km/m'); x *= 2`: the coefficient of the result is 1000 and the
+    out array's own unit `km/m` simplifies to the coefficient 1000 as well: no termination -/
+theorem out_fixup_counterexample : ¬ C04_inplace_full := by
+  intro h
+  have := h uKmPerM 1000
+  revert this
+  decide +kernel
+
 end Unyt.C04
